@@ -460,6 +460,8 @@ package diam
 //@
 //@ func (*ServeMux).Error(mux, err)
 //@   property C09 C15
+//@   # a report is offered, never waited for: a full ErrorReports channel must not hold up the connection that reports
+//@   nonblocking
 //@   requires mux != nil && !closed(mux.e)
 //@   modifies reports()
 //@   ghostset reports() = old(reports()) + 1
